@@ -189,6 +189,13 @@ theorem dest_ok {cfg : Cfg} {w : World} (hw : Inv w) {a : Oid} {A : Obj} (hA : g
     have hTo := (getO_some hT).2
     by_cases hm : t = masterOid
     · simp only [hm, if_true]
+      by_cases hnr : cfg.noRoot = true
+      · rw [if_pos hnr]
+        apply stepOK_same hw w rfl
+        · exact noEuid_of_all (by simp [recOf]) rfl
+        · simp [exportClause, recOf]
+        · simp [askedClause, recOf]
+      rw [if_neg hnr]
       by_cases hguard : A.oid ≠ masterOid ∧ A.euid = none
       · rw [if_pos hguard]
         apply stepOK_same hw w rfl
@@ -220,6 +227,13 @@ theorem dest_ok {cfg : Cfg} {w : World} (hw : Inv w) {a : Oid} {A : Obj} (hA : g
         · simp [exportClause, recOf]
         · simp [askedClause, recOf]
     · simp only [hm, if_false]
+      by_cases hse : t = simulOid
+      · rw [if_pos hse]
+        apply stepOK_same hw w rfl
+        · exact noEuid_of_all (by simp [recOf]) rfl
+        · simp [exportClause, recOf]
+        · simp [askedClause, recOf]
+      rw [if_neg hse]
       apply stepOK_of
       · constructor
         · exact WF_delO hw.wf t
